@@ -360,12 +360,15 @@ func (obj *SparseConstIntVectorJointIterator) Index() int {
   return obj.idx
 }
 func (obj *SparseConstIntVectorJointIterator) Ok() bool {
-  return !(obj.s1.GetInt() == int(0)) ||
-         !(obj.s2.GetInt() == int(0))
+  return obj.idx != -1
 }
 func (obj *SparseConstIntVectorJointIterator) Next() {
   ok1 := obj.it1.Ok()
   ok2 := obj.it2.Ok()
+  if !ok1 && !ok2 {
+    // all iterators are exhausted
+    obj.idx = -1
+  }
   obj.s1 = ConstInt(0)
   obj.s2 = ConstInt(0)
   if ok1 {
